@@ -550,9 +550,19 @@ class SymStr(str, SymStrBase):
             if isinstance(c, str):
                 out.append(f(c))
             elif isinstance(c, C):
-                if any(f(ch) != ch for ch in c.alpha):
-                    raise Inconclusive("case mapping of a symbolic character")
-                out.append(c)
+                if any(len(f(ch)) != 1 for ch in c.alpha):
+                    raise Inconclusive("case mapping that changes the length of a symbolic character")
+                if all(f(ch) == ch for ch in c.alpha):
+                    out.append(c)
+                else:
+                    # a new symbolic character: the image of the old one under the (finite) mapping
+                    t = c.t
+                    for ch in sorted(c.alpha):
+                        if f(ch) != ch:
+                            t = z3.If(c.t == ord(ch), z3.IntVal(ord(f(ch))), t)
+                    out.append(C(t, frozenset(f(ch) for ch in c.alpha)))
+            elif isinstance(c, T):
+                out.append(c)  # digits, sign, point, 'e'/'E', inf/nan: the value is unchanged by case mapping
             else:
                 out.append(c)
         return self._mk(out)
